@@ -6,27 +6,61 @@ harness, by cooperative wrappers with the same interface so that a worker that
 would block reports 'blocked' instead of hanging the scheduler."""
 import ast
 import os
+import re
 import sys
 import threading
 
 WHOLE = ('_config_str', 'operative_config_str', 'singleton_value', '_is_literally_representable', '_format_value')
-SHARED = ('_OPERATIVE_CONFIG', '_OPERATIVE_CONFIG_LOCK', '_SINGLETONS', '_SINGLETONS_LOCK')
+# the shared records the property names, and whatever a change calls the things that guard them
+SHARED_RE = re.compile(r'^_(OPERATIVE_CONFIG|SINGLETON)')
 
 
 def preemption_lines(path):
-  """lines of config.py (inside function bodies) that mention a shared record, found from the AST"""
+  """lines of config.py at which a worker can be preempted, found from the AST of the current file: every statement
+  of every function that mentions a shared record (the operative record, the singleton cache, their locks under
+  whatever name), and of the serialiser functions, which iterate the record through a parameter"""
   tree = ast.parse(open(path).read())
   lines = set()
   for fn in ast.walk(tree):
     if isinstance(fn, (ast.FunctionDef,)):
-      for node in ast.walk(fn):
-        if isinstance(node, ast.Name) and node.id in SHARED:
-          lines.add(node.lineno)
-      if fn.name in WHOLE:       # the serialiser iterates the record through a parameter: every statement of it
+      mentions = any(isinstance(node, ast.Name) and SHARED_RE.match(node.id) for node in ast.walk(fn))
+      if mentions or fn.name in WHOLE:
         for node in ast.walk(fn):
           if isinstance(node, ast.stmt) and node is not fn:
             lines.add(node.lineno)
   return lines
+
+
+_LOCK_TYPES = (type(threading.Lock()), type(threading.RLock()))
+
+
+class _Threading:
+  """stands in for the module `threading` inside gin/config.py: locks created at run time are cooperative too"""
+
+  def __init__(self, sched):
+    self._sched = sched
+
+  def Lock(self):  # pylint: disable=invalid-name
+    return CoopLock(self._sched)
+
+  def RLock(self):  # pylint: disable=invalid-name
+    return CoopLock(self._sched)
+
+  def __getattr__(self, name):
+    return getattr(threading, name)
+
+
+def install(cfg, sched):
+  """every lock object held in a module global of gin/config.py (whatever its name) becomes cooperative, and so does
+  every lock the module creates from now on; dicts of locks included"""
+  for name, val in list(vars(cfg).items()):
+    if isinstance(val, _LOCK_TYPES):
+      setattr(cfg, name, CoopLock(sched))
+    elif isinstance(val, dict) and val and all(isinstance(v, _LOCK_TYPES) for v in val.values()):
+      for k in list(val):
+        val[k] = CoopLock(sched)
+  if getattr(cfg, 'threading', None) is threading:
+    cfg.threading = _Threading(sched)
 
 
 class CoopLock:
@@ -148,7 +182,7 @@ class Scheduler:
         break
       self.trace.append(pick)
       self.go[pick].release()
-      if not self.parked.acquire(timeout=30):
+      if not self.parked.acquire(timeout=10):
         self.errors[pick] = TimeoutError('worker %d did not reach a preemption point' % pick)
         break
     return self.errors
